@@ -66,9 +66,9 @@ class NAPTR(dns.rdata.Rdata):
     ):
         order = tok.get_uint16()
         preference = tok.get_uint16()
-        flags = tok.get_string()
-        service = tok.get_string()
-        regexp = tok.get_string()
+        flags = tok.get_string_as_bytes()
+        service = tok.get_string_as_bytes()
+        regexp = tok.get_string_as_bytes()
         replacement = tok.get_name(origin, relativize, relativize_to)
         return cls(
             rdclass, rdtype, order, preference, flags, service, regexp, replacement
